@@ -18,6 +18,15 @@ func annotateTopUp(e *Exec, d *Disc, tx *model.Tx) {
 		return
 	}
 	m := model.Flatten(tx.Msgs)[0]
+	if m.Kind == model.StrCreate && d.Kind == "tx.panic" && m.Rate > 0 {
+		// the same unrepresentable time at creation: block time + floor(deposit / rate) seconds
+		z := new(big.Int).Add(big.NewInt(e.M.NowS()), new(big.Int).Div(m.AmtI(), big.NewInt(m.Rate)))
+		if d.Sig == nil {
+			d.Sig = map[string]string{}
+		}
+		d.Sig["new_zero_time_after_year_9999"] = fmt.Sprint(z.Cmp(big.NewInt(maxProtoTimeS)) > 0)
+		return
+	}
 	if m.Kind != model.StrTopUp {
 		return
 	}
